@@ -50,11 +50,18 @@ impl Time for SimTime {
 
 const FUDGE: u16 = 300;
 fn secret(k: &str) -> Vec<u8> {
+    // keys are binary: they may contain any octet, line breaks included
     match k {
-        "k1" => b"secret-number-one-0123456789abcdef".to_vec(),
-        "k2" => b"another-secret-two-fedcba9876543210".to_vec(),
+        "k1" => b"secret-number-one\n0123456789abcdef".to_vec(),
+        "k2" => b"another\rsecret-two-fedcba9876543210".to_vec(),
         _ => b"not-a-configured-secret-zzzzzzzzzzzz".to_vec(),
     }
+}
+/// the named key cut at its first CR / LF octet
+fn secret_prefix(k: &str) -> Vec<u8> {
+    let s = secret(k);
+    let n = s.iter().position(|b| *b == b'\n' || *b == b'\r').unwrap_or(s.len());
+    s[..n].to_vec()
 }
 fn key_name(k: &str) -> Name {
     Name::from_str(&format!("{k}.keys.")).unwrap()
@@ -328,7 +335,11 @@ fn build(op: &str, r: &Value, origin: &Name, uniq: u32) -> Built {
     let mut verifier = None;
     if r["signed"].as_bool().unwrap() {
         let alg = if r["alg"] == "cfg" { TsigAlgorithm::HmacSha256 } else { TsigAlgorithm::HmacSha512 };
-        let s = signer(r["keyName"].as_str().unwrap(), r["macKey"].as_str().unwrap(), alg);
+        let s = if r["macKey"] == "kprefix" {
+            TSigner::new(secret_prefix(r["keyName"].as_str().unwrap()), alg, key_name(r["keyName"].as_str().unwrap()), FUDGE).expect("signer")
+        } else {
+            signer(r["keyName"].as_str().unwrap(), r["macKey"].as_str().unwrap(), alg)
+        };
         let t = (NOW.load(Ordering::SeqCst) as i64 + r["dt"].as_i64().unwrap()) as u64;
         verifier = msg.finalize(&s, t).expect("finalize");
     }
@@ -578,7 +589,10 @@ fn main() {
                 }
                 let mut class = Value::Null;
                 let mut ok = true;
-                if o.effect && !may {
+                if honoured && !o.effect {
+                    ok = false;
+                    class = json!("authentic-request-refused");
+                } else if o.effect && !may {
                     ok = false;
                     class = json!(format!("effect-without-valid-tsig:{}", r["tamper"].as_str().unwrap()));
                 } else if o.rcode == "PANIC" {
